@@ -3,7 +3,7 @@
 From Coq Require Import List ZArith NArith Bool Arith String.
 Import ListNotations.
 From DD Require Import Base.Sx Base.PyStr Base.Value Diff.Tree Diff.DiffModel Hash.HashModel
-  DiffIO.DiffIOModel DiffIO.DiffIOShow Options.OptModel HashDiff.HashDiffModel HashDiff.HashDiffProofsAtoms HashDiff.HashDiffProofsLift HashDiff.HashDiffProofsKeys.
+  DiffIO.DiffIOModel DiffIO.DiffIOShow Options.OptModel HashDiff.HashDiffModel HashDiff.HashDiffProofsAtoms HashDiff.HashDiffProofsLift HashDiff.HashDiffProofsKeys HashDiff.HashDiffProofsParts.
 Local Open Scope string_scope.
 
 (* the hasher of the model runs: hex of the UTF-8 bytes behind a letter, so that the
@@ -54,3 +54,14 @@ Definition run_c12_guards (l : list bool) : string := ("BEGIN" ++ nl ++ guard_ch
 Definition g2 (c : cfg) (F : opts) (rep : bool) (t1 t2 : value) : list bool :=
   [lift_guard c F rep t1 t2; lift_guardb c F rep t1 t2].
 Definition run_c12_guards2 (l : list (list bool)) : string := run_c12_guards (List.concat l).
+
+(* EVERY hypothesis of the C12 theorems on one generated case, one character each:
+   0 lift_guard   1 lift_guardb   2 lg_tag   3 lg_ascii   4 lg_k9 (exact)   5 the K9 component of rounds 1-2
+   6 lg_cohk   7 lg_keyb   8 goodv t1   9 goodv t2   10 wf t1   11 wf t2   12 alias_free t1   13 alias_free t2
+   14 shared F   15 threshold <= 1   16 the guard of rounds 1-2 *)
+Definition gparts (c : cfg) (F : opts) (rep : bool) (t1 t2 : value) : list bool :=
+  [lift_guard c F rep t1 t2; lift_guardb c F rep t1 t2; lg_tag F t1 t2; lg_ascii t1 t2; lg_k9 F t1 t2;
+   forallb (fun a => forallb (old_k9 F a) (lg_atoms t1 t2)) (lg_atoms t1 t2);
+   lg_cohk F t1 t2; lg_keyb F t1 t2; goodv c F rep t1; goodv c F rep t2;
+   wf t1; wf t2; alias_free t1; alias_free t2; shared F; Nat.leb (thr_num c) (thr_den c);
+   old_lift_guard c F rep t1 t2].
